@@ -7,6 +7,7 @@ are those listed in `Deferred`.  Helper lemmas; the property theorems are in `Pr
 -/
 import ProfiVerif.Lemmas.StationInv
 import ProfiVerif.Lemmas.StationWho
+import ProfiVerif.Lemmas.StationMark
 
 namespace PV
 
@@ -169,14 +170,12 @@ theorem doPassToken_prog (c : Ctx) (now l : Int) (hs : Sil c l) :
 
 /-- The start states whose *late* silent poll may end without a transmission, together with the
 state the poll ends in:
-* `UseToken` / `AwaitDataResponse` (after its time-out) when no application transmits or the hold
-  time is over → `PassToken(gap, first)`;
 * `ClaimToken(Scan)` with the GAP sweep finished → `PassToken(no gap, first)`;
 * `ClaimToken(Scan | ScanAwait)` whose sweep position is the last GAP address → `ClaimToken(Scan)` with
-  the sweep finished (`Waiting 0`). -/
+  the sweep finished (`Waiting 0`).
+(`UseToken` and `AwaitDataResponse` pass the token in the same poll since the repair of finding K3.) -/
 def Deferred (s s' : Station) : Prop :=
-  (((∃ d f, s.st = .useToken d f) ∨ (∃ a d, s.st = .awaitData a d)) ∧ s'.st = .passToken true .first)
-  ∨ (s.st = .claimToken .scan ∧ (∃ r, s.gap = .waiting r) ∧ s'.st = .passToken false .first)
+  (s.st = .claimToken .scan ∧ (∃ r, s.gap = .waiting r) ∧ s'.st = .passToken false .first)
   ∨ ((s.st = .claimToken .scan ∨ ∃ a, s.st = .claimToken (.scanAwait a)) ∧
       ∃ cur, s.gap = .doPoll cur ∧ nextGapPoll s.p.address s.ring.ns s.p.hsa cur = .waiting ∧
         s'.st = .claimToken .scan ∧ s'.gap = .waiting 0)
@@ -240,7 +239,7 @@ theorem claimScan_prog (c : Ctx) (now l : Int) (fuel : Nat) (hs : Sil c l) (hst 
       obtain ⟨s', hs', rfl⟩ := tr_cases _ _ _ _ h
       have := toPassToken_eq hs'
       subst this
-      exact ⟨rfl, hs.on, Or.inr ⟨⟨hs.on, hs.tx, hs.rx, hs.last⟩, fun _ => Or.inr (Or.inl ⟨hst, ⟨r, hgap⟩, rfl⟩)⟩⟩
+      exact ⟨rfl, hs.on, Or.inr ⟨⟨hs.on, hs.tx, hs.rx, hs.last⟩, fun _ => Or.inl ⟨hst, ⟨r, hgap⟩, rfl⟩⟩⟩
     · rename_i cur hgap
       split at h
       · cases h
@@ -265,7 +264,7 @@ theorem claimScan_prog (c : Ctx) (now l : Int) (fuel : Nat) (hs : Sil c l) (hst 
             obtain ⟨hn, rfl⟩ := nextGap_waiting c.s cur g r hg hr'
             subst hr'
             exact ⟨rfl, hs.on, Or.inr ⟨⟨hs.on, hs.tx, hs.rx, hs.last⟩,
-              fun _ => Or.inr (Or.inr ⟨Or.inl hst, cur, hgap, hn, hst, rfl⟩)⟩⟩
+              fun _ => Or.inr ⟨Or.inl hst, cur, hgap, hn, hst, rfl⟩⟩⟩
 
 /-- The two claim tokens: after the synchronisation pause the self-addressed token is transmitted. -/
 theorem claimTok_prog (c : Ctx) (now l : Int) (fuel : Nat) (hs : Sil c l) (step : ClaimStep)
@@ -340,11 +339,9 @@ theorem doClaimToken_prog (c : Ctx) (now l : Int) (hs : Sil c l) :
           simp only at h
           obtain ⟨h1, h2, h3⟩ := claimScan_prog _ now l 0 (sil_setSt hs (.claimToken .scan)) rfl c' h
           refine ⟨h1, h2, h3.imp id (fun ⟨hsil, hd⟩ => ⟨hsil, fun hl => ?_⟩)⟩
-          rcases hd hl with ⟨hu | hu, -⟩ | ⟨-, ⟨r, hr⟩, -⟩ | ⟨-, cur, hc, hn, hst', hg'⟩
-          · obtain ⟨d, f, hu⟩ := hu; cases hu
-          · obtain ⟨d, f, hu⟩ := hu; cases hu
+          rcases hd hl with ⟨-, ⟨r, hr⟩, -⟩ | ⟨-, cur, hc, hn, hst', hg'⟩
           · simp only [upd] at hr; rw [hgap] at hr; cases hr
-          · exact Or.inr (Or.inr ⟨Or.inr ⟨a, hst⟩, cur, hc, hn, hst', hg'⟩)
+          · exact Or.inr ⟨Or.inr ⟨a, hst⟩, cur, hc, hn, hst', hg'⟩
         · rw [if_neg hsl] at h
           simp only at h
           cases h
@@ -624,9 +621,25 @@ theorem appsTransmit_sil (now l : Int) (hp : Bool) : ∀ (k : Nat) (c : Ctx), Si
             exact ⟨a, by rw [b']; show c1.s.gap = c.s.gap; rw [he1]⟩
         · cases h
 
-/-- One message-cycle attempt: an application transmits, or the token is passed on (next poll). -/
+/-- End of a token hold: the token (or a GAP poll) goes out in the same poll. -/
+theorem passNow_prog (c0 c : Ctx) (now l : Int) (hs : Sil c l) (hp : c.s.p = c0.s.p) :
+    Prog c0 l (fun _ => ¬ Late c0.s.p l now) (passNow c now) := by
+  intro c' h
+  unfold passNow at h
+  cases htr : tr c (fun s => toPassToken s true .first) "transition_pass_token" with
+  | panic s => rw [htr] at h; cases h
+  | ok c2 =>
+    rw [htr] at h
+    simp only [Res.bind] at h
+    obtain ⟨s', hs', rfl⟩ := tr_cases _ _ _ _ htr
+    have := toPassToken_eq hs'
+    subst this
+    exact doPassToken_prog' c0 { c with s := { c.s with st := .passToken true .first } } now l
+      ⟨hs.on, hs.tx, hs.rx, hs.last⟩ hp c' h
+
+/-- One message-cycle attempt: an application transmits, or the token is passed on in the same poll. -/
 theorem useTokenGo_prog (c : Ctx) (now l : Int) (d : UseData) (hp : Bool) (hs : Sil c l) :
-    Prog c l (fun c' => c'.s.st = .passToken true .first ∧ c'.s.gap = c.s.gap) (useTokenGo c now d hp) := by
+    Prog c l (fun _ => ¬ Late c.s.p l now) (useTokenGo c now d hp) := by
   intro c' h
   unfold useTokenGo at h
   simp only at h
@@ -644,14 +657,11 @@ theorem useTokenGo_prog (c : Ctx) (now l : Int) (d : UseData) (hp : Bool) (hs : 
       exact ⟨hp1, ho1, Or.inl (ht1 rfl)⟩
     | false =>
       simp only at h
-      obtain ⟨hs1, hg1⟩ := hf1 rfl
-      obtain ⟨s', hs', rfl⟩ := tr_cases _ _ _ _ h
-      have := toPassToken_eq hs'
-      subst this
-      exact ⟨hp1, ho1, Or.inr ⟨⟨hs1.on, hs1.tx, hs1.rx, hs1.last⟩, rfl, hg1⟩⟩
+      obtain ⟨hs1, -⟩ := hf1 rfl
+      exact passNow_prog c c1 now l hs1 hp1 c' h
 
 theorem doUseToken_prog (c : Ctx) (now l : Int) (hs : Sil c l) :
-    Prog c l (fun c' => Late c.s.p l now → c'.s.st = .passToken true .first ∧ c'.s.gap = c.s.gap) (doUseToken c now) := by
+    Prog c l (fun _ => ¬ Late c.s.p l now) (doUseToken c now) := by
   intro c' h
   unfold doUseToken at h
   split at h
@@ -672,19 +682,15 @@ theorem doUseToken_prog (c : Ctx) (now l : Int) (hs : Sil c l) :
       exact ⟨hk.2, hs1.on, Or.inr ⟨hs1, fun hl => absurd hw hl.sync⟩⟩
     · rw [if_neg (by simpa using hw)] at h
       have go : ∀ hp, useTokenGo { c with s := holdUpdate c.s d } now d hp = .ok c' →
-          c'.s.p = c.s.p ∧ c'.s.online = true ∧
-          (c'.tx ≠ none ∨ (Sil c' l ∧ (Late c.s.p l now → c'.s.st = .passToken true .first ∧ c'.s.gap = c.s.gap))) := by
+          c'.s.p = c.s.p ∧ c'.s.online = true ∧ (c'.tx ≠ none ∨ (Sil c' l ∧ ¬ Late c.s.p l now)) := by
         intro hp hgo
         obtain ⟨h1, h2, h3⟩ := useTokenGo_prog _ now l d hp hs1 c' hgo
-        exact ⟨h1.trans hk.2, h2, h3.imp id (fun ⟨a, b, g⟩ => ⟨a, fun _ => ⟨b, g.trans hce.2.2.2.1⟩⟩)⟩
+        exact ⟨h1.trans hk.2, h2, h3.imp id (fun ⟨a, b⟩ => ⟨a, by rw [← hk.2]; exact b⟩)⟩
       split at h
       · exact go _ h
       · split at h
         · exact go _ h
-        · obtain ⟨s', hs', rfl⟩ := tr_cases _ _ _ _ h
-          have := toPassToken_eq hs'
-          subst this
-          exact ⟨hk.2, hs1.on, Or.inr ⟨⟨hs1.on, hs1.tx, hs1.rx, hs1.last⟩, fun _ => ⟨rfl, hce.2.2.2.1⟩⟩⟩
+        · exact passNow_prog c { c with s := holdUpdate c.s d } now l hs1 hk.2 c' h
   · cases h
 
 /-! ### Waiting for a data reply -/
@@ -722,7 +728,7 @@ theorem awaitData_wait (c : Ctx) (now l : Int) (addr : Nat) (d : UseData) (hs : 
 
 theorem doAwaitDataResponse_prog (c : Ctx) (now l : Int) (hs : Sil c l) (addr : Nat) (d : UseData)
     (hst : c.s.st = .awaitData addr d) (happ : c.s.nextApp < c.apps.length) :
-    Prog c l (fun c' => Late c.s.p l now → c'.s.st = .passToken true .first ∧ c'.s.gap = c.s.gap) (doAwaitDataResponse c now) := by
+    Prog c l (fun _ => ¬ Late c.s.p l now) (doAwaitDataResponse c now) := by
   by_cases hsl : now > l + (c.s.p.slotTime : Nat)
   · rw [awaitData_timeout c now l addr d hs hst happ hsl]
     exact doUseToken_prog { c with calls := c.calls ++ [.timeout c.s.nextApp addr], s := { c.s with st := .useToken d true } }
@@ -744,11 +750,9 @@ theorem dispatch_prog (c : Ctx) (now l : Int) (hs : Sil c l) (hinv : Inv c.s c.a
   | activeIdle a b d => exact (doActiveIdle_prog c now l hs).mono (fun _ hn hl => absurd hl hn)
   | claimToken a =>
     exact doClaimToken_prog c now l hs
-  | useToken d f =>
-    exact (doUseToken_prog c now l hs).mono (fun _ hd hl => Or.inl ⟨Or.inl ⟨d, f, hst⟩, (hd hl).1⟩)
+  | useToken d f => exact (doUseToken_prog c now l hs).mono (fun _ hn hl => absurd hl hn)
   | awaitData a d =>
-    exact (doAwaitDataResponse_prog c now l hs a d hst (hinv.appWait a d hst)).mono
-      (fun _ hd hl => Or.inl ⟨Or.inr ⟨a, d, hst⟩, (hd hl).1⟩)
+    exact (doAwaitDataResponse_prog c now l hs a d hst (hinv.appWait a d hst)).mono (fun _ hn hl => absurd hl hn)
   | passToken a b => exact (doPassToken_prog c now l hs).mono (fun _ hn hl => absurd hl hn.1)
   | checkTokenPass a => exact (doCheckTokenPass_prog c now l hs).mono (fun _ hn hl => absurd hl hn)
   | awaitStatus a => exact (doAwaitStatusResponse_prog c now l hs).mono (fun _ hn hl => absurd hl hn)
@@ -805,9 +809,7 @@ theorem pollInner_prog_offline (c : Ctx) (now l : Int) (hs : Sil c l) (hinv : In
   intro c' h
   obtain ⟨a, b, d⟩ := h1 c' h
   refine ⟨a, b, d.imp id (fun ⟨x, y⟩ => ⟨x, fun hl => ?_⟩)⟩
-  rcases y hl with ⟨hu | hu, -⟩ | ⟨hu, -⟩ | ⟨hu | hu, -⟩
-  · obtain ⟨_, _, hu⟩ := hu; cases hu
-  · obtain ⟨_, _, hu⟩ := hu; cases hu
+  rcases y hl with ⟨hu, -⟩ | ⟨hu | hu, -⟩
   · cases hu
   · cases hu
   · obtain ⟨_, hu⟩ := hu; cases hu
@@ -833,7 +835,6 @@ theorem silent_step (c : Ctx) (now l : Int) (hinv : Inv c.s c.apps) (hs : Sil c 
 /-- Upper bound on the number of `Late` silent polls a station needs until it transmits. -/
 def pollsToTx (s : Station) : Nat :=
   match s.st with
-  | .useToken .. | .awaitData .. => 2
   | .claimToken .scan | .claimToken (.scanAwait _) =>
     match s.gap with
     | .waiting _ => 2
@@ -847,11 +848,7 @@ theorem pollsToTx_le (s : Station) : 1 ≤ pollsToTx s ∧ pollsToTx s ≤ 3 := 
 
 /-- A deferred poll strictly lowers the bound. -/
 theorem deferred_lt {s s' : Station} (h : Deferred s s') : pollsToTx s' < pollsToTx s := by
-  rcases h with ⟨hu | hu, hs'⟩ | ⟨hs, ⟨r, hr⟩, hs'⟩ | ⟨hs, cur, hc, hn, hs', hg'⟩
-  · obtain ⟨d, f, hu⟩ := hu
-    simp [pollsToTx, hu, hs']
-  · obtain ⟨a, d, hu⟩ := hu
-    simp [pollsToTx, hu, hs']
+  rcases h with ⟨hs, ⟨r, hr⟩, hs'⟩ | ⟨hs, cur, hc, hn, hs', hg'⟩
   · simp [pollsToTx, hs, hr, hs']
   · rcases hs with hs | ⟨a, hs⟩
     · simp [pollsToTx, hs, hc, hn, hs', hg']
@@ -977,8 +974,7 @@ theorem check_expired (c : Ctx) (now l : Int) (hs : Sil c l) (att : Attempt) (hs
     rw [if_neg (by simp only [decide_eq_true_eq]; rw [hp0]; omega)]
     simp
   unfold doCheckTokenPass
-  rw [hst]
-  simp only
+  simp only [hst]
   rw [checkSlot_some _ _ _ hs.last]
   simp only [decide_eq_true_eq]
   rw [if_pos hsl]
@@ -995,11 +991,14 @@ theorem check_expired (c : Ctx) (now l : Int) (hs : Sil c l) (att : Attempt) (hs
 
 theorem removeStation_inactive (r r' : TokenRing) (a : Nat) (h : r.removeStation a = some r') : r'.isActive a = false := by
   unfold TokenRing.removeStation at h
-  split at h
-  · cases h
-  · cases h
-    rw [TokenRing.updateNextPrev_active]
-    simp [TokenRing.isActive]
+  by_cases ha : a ≥ 128
+  · rw [if_pos ha] at h; exact absurd h (by simp)
+  · rw [if_neg ha] at h
+    have h' := Option.some.inj h
+    rw [← h', TokenRing.updateNextPrev_active]
+    unfold TokenRing.isActive
+    rw [dif_pos (by omega)]
+    simp only [Vector.getElem_ofFn, if_true]
 
 /-- Only `transmit_telegram` calls are recorded while the token is held. -/
 def OnlyTransmitCalls (extra : List AppCall) : Prop := ∀ x ∈ extra, ∃ i hp a, x = AppCall.transmit i hp a
@@ -1068,6 +1067,15 @@ theorem appsTransmit_calls (now : Int) (hp : Bool) : ∀ (k : Nat) (c c' : Ctx) 
             exact ⟨e1 ++ e2, by rw [he2]; simp only [upd]; rw [he1, List.append_assoc], ho1.append ho2⟩
         · cases h
 
+theorem passNow_calls (c : Ctx) (now : Int) (c' : Ctx) (h : passNow c now = .ok c') : c'.calls = c.calls := by
+  unfold passNow at h
+  cases htr : tr c (fun s => toPassToken s true .first) "transition_pass_token" with
+  | panic s => rw [htr] at h; cases h
+  | ok c2 =>
+    rw [htr] at h
+    simp only [Res.bind] at h
+    rw [doPassToken_calls c2 now c' h, tr_calls _ _ _ _ htr]
+
 theorem useTokenGo_calls (c : Ctx) (now : Int) (d : UseData) (hp : Bool) (c' : Ctx) (h : useTokenGo c now d hp = .ok c') :
     ∃ extra, c'.calls = c.calls ++ extra ∧ OnlyTransmitCalls extra := by
   unfold useTokenGo at h
@@ -1083,8 +1091,7 @@ theorem useTokenGo_calls (c : Ctx) (now : Int) (d : UseData) (hp : Bool) (c' : C
     | true => simp only at h; cases h; exact ⟨e, he, ho⟩
     | false =>
       simp only at h
-      obtain ⟨s', -, rfl⟩ := tr_cases _ _ _ _ h
-      exact ⟨e, he, ho⟩
+      exact ⟨e, (passNow_calls c1 now c' h).trans he, ho⟩
 
 theorem doUseToken_calls (c : Ctx) (now : Int) (c' : Ctx) (h : doUseToken c now = .ok c') :
     ∃ extra, c'.calls = c.calls ++ extra ∧ OnlyTransmitCalls extra := by
@@ -1094,11 +1101,10 @@ theorem doUseToken_calls (c : Ctx) (now : Int) (c' : Ctx) (h : doUseToken c now 
     split at h
     · cases h; exact ⟨[], by simp, fun x hx => by cases hx⟩
     · split at h
-      · exact useTokenGo_calls _ now _ _ c' h
+      · exact useTokenGo_calls { c with s := (waitSyncPause (holdUpdate c.s _) now).1 } now _ _ c' h
       · split at h
-        · exact useTokenGo_calls _ now _ _ c' h
-        · obtain ⟨s', -, rfl⟩ := tr_cases _ _ _ _ h
-          exact ⟨[], by simp, fun x hx => by cases hx⟩
+        · exact useTokenGo_calls { c with s := (waitSyncPause (holdUpdate c.s _) now).1 } now _ _ c' h
+        · exact ⟨[], by rw [passNow_calls _ now c' h]; simp, fun x hx => by cases hx⟩
   · cases h
 
 end PV
